@@ -17,11 +17,14 @@ REPO = os.environ.get("VERIF_REPO", "/repo")
 LINKSRC = os.path.join(coqrun.COQ, "link")
 CACHE = os.path.join(coqrun.VERIF, "linkcache")   # outside coq/ (which is bound to UV)
 
-V, F, I, M, VZ, B = py2coq.V, py2coq.F, py2coq.I, py2coq.M, py2coq.VZ, py2coq.B
+V, F, I, M, VZ, B, MZ = py2coq.V, py2coq.F, py2coq.I, py2coq.M, py2coq.VZ, py2coq.B, py2coq.MZ
 
 # module -> configuration.  `functions`: translated in this order (callees first).  `sigs`: per function: `args` argument types where
 # the defaults of py2coq.DEFAULT_ARG_TYPES do not apply, `fuel` the iteration budget of its `while` loops (an int expression over the
-# arguments), `opaque` helpers that become function parameters (see py2coq.py).  `files`: link files (compiled in this order).
+# arguments), `opaque` helpers that become function parameters, `fixed` boolean arguments the function is specialised to (see py2coq.py).
+# `const_names`: module-level constants read from the CURRENT source (py2coq.module_consts: a literal becomes the generated
+# definition `src_const_<NAME>` = its `nlit`, a name bound to np.inf becomes the extra argument `pinf`).
+# `files`: link files (compiled in this order).
 MODULES = {
     "distances": {
         "path": "umap/distances.py",
@@ -53,6 +56,20 @@ MODULES = {
         "files": ["L_grads.v"],
         "eval": "E_grads.v",
         "deps": ["thm/T_link_arr.v", "model/M_grads.v", "model/V_grads.v"],
+    },
+    # C01: the two numba kernels of the fuzzy-neighbourhood construction.  compute_membership_strengths is translated for
+    # return_dists=False, bipartite=False (the values fuzzy_simplicial_set's default path and the harness use).
+    "umap_knn": {
+        "path": "umap/umap_.py",
+        "functions": ["compute_membership_strengths", "smooth_knn_dist"],
+        "const_names": ["SMOOTH_K_TOLERANCE", "MIN_K_DIST_SCALE", "NPY_INFINITY"],
+        "sigs": {
+            "compute_membership_strengths": {"args": {"knn_indices": MZ, "knn_dists": M, "sigmas": V, "rhos": V},
+                                             "fixed": {"return_dists": False, "bipartite": False}},
+            "smooth_knn_dist": {"args": {"distances": M, "k": F, "n_iter": I, "local_connectivity": F, "bandwidth": F}},
+        },
+        "files": ["L_knn.v"],
+        "deps": ["model/M_smooth.v", "model/M_metrics.v"],
     },
 }
 
@@ -135,7 +152,7 @@ def prepare(module, timeout=600):
     cfg = MODULES[module]
     res = LinkResult()
     src_path = os.path.join(REPO, cfg["path"])
-    text, report = py2coq.translate_module(src_path, cfg["functions"], cfg.get("sigs"), cfg.get("consts"))
+    text, report = py2coq.translate_module(src_path, cfg["functions"], cfg.get("sigs"), cfg.get("consts"), const_names=cfg.get("const_names"))
     # the header names the path; keep the key independent of where the tree lives
     text = text.replace(src_path, cfg["path"])
     res.translated, res.src_text = report, text
